@@ -174,7 +174,7 @@ def run_path(con: Contract, case, prefix, worklist, report: FunctionReport, plan
                 report.refutations.append(
                     {"obligation": name, "case": label, "inputs": inputs, "decisions": list(ctx.decisions),
                      "goal": str(info.get("goal"))[:2000], "model": str(m)[:4000],
-                     "awaits": list(ctx.await_log)}
+                     "awaits": _conc_awaits(ctx.await_log, m)}
                 )
         if len(report.samples) < 3:
             for name, verdict, info in ctx.obligations:
@@ -196,6 +196,35 @@ def _check_decorators(con, node):
         if s in KNOWN_DECORATORS or s in getattr(con, "accepted_decorators", ()):
             continue
         raise Unsupported(f"decorator @{s} on {con.qualname} is not modelled: the verified text would not be the code that runs")
+
+
+def _conc_awaits(log, m):
+    from .concretize import conc
+
+    out = []
+    for rec in log:
+        r = {k: v for k, v in rec.items() if k not in ("state", "value_sym", "exc_sym")}
+        if m is not None:
+            try:
+                seen = {}
+                if "state" in rec:
+                    r["state"] = {k: conc(v, m, 0, seen) for k, v in rec["state"].items()}
+                if "value_sym" in rec:
+                    r["value"] = conc(rec["value_sym"], m, 0, seen)
+                if "exc_sym" in rec:
+                    r["exc"] = conc(rec["exc_sym"], m, 0, seen)
+            except Exception as e:  # pragma: no cover
+                r["state_error"] = repr(e)
+        out.append(r)
+    return out
+
+
+def _is_async(con):
+    try:
+        node, _m, _h = source.find_function(con.qualname)
+    except KeyError:
+        return False
+    return isinstance(node, ast.AsyncFunctionDef)
 
 
 def known_hyps(I, con, name, bindings, old_view):
@@ -245,6 +274,9 @@ def check_exit(I, con, bindings, old_view, result, raised, exit_kind, self_obj, 
     # frame
     if con.modifies_ is not None and self_obj is not None:
         allowed = {p.split(".", 1)[1] for p in con.modifies_ if p.startswith("self.")}
+        if _is_async(con):
+            # a coroutine is suspended at its awaits: the interference frame of the class is implicit
+            allowed |= set(con.self_spec.interference if con.self_spec.interference is not None else con.self_spec.fields)
         oldf = old_view.get(self_obj.oid, {})
         for fld in sorted(set(oldf) | set(self_obj.fields)):
             if fld in allowed:
